@@ -388,10 +388,13 @@ class Acl(AceGroup):
         if not group_by:
             return
         ungrouped_l: LUAce = []
+        old_groups: Dict[str, AceGroup] = {}  # existing groups by uuid of the 1st item
         for item in self._items:
             if isinstance(item, (Ace, Remark)):
                 ungrouped_l.append(item)
             elif isinstance(item, AceGroup):
+                if item.items:
+                    old_groups[item.items[0].uuid] = item
                 _ungrouped = self._ungroup(item.items)
                 ungrouped_l.extend(_ungrouped)
 
@@ -420,6 +423,11 @@ class Acl(AceGroup):
                     name=group_name,
                     items=aces_items,
                 )
+                # regrouping keeps identity of the group that starts with the same item
+                if old_group := old_groups.get(aces_items[0].uuid):
+                    aceg_o.uuid = old_group.uuid
+                    aceg_o.note = old_group.note
+                    aceg_o.sequence = old_group.sequence
                 grouped_items.append(aceg_o)
         self._items = grouped_items
         self._group_by = group_by
